@@ -167,7 +167,7 @@ CHECK = {
                  "P3R.C18.e2wCollect_perm", "P3R.C18.e2wPairs_nodup", "P3R.C18.genOrder_perm", "P3R.C18.canonMap_perm",
                  "P3R.C18.tagTransfer_spec", "P3R.C18.tagTransfer_perm",
                  # key generation, runner
-                 "P3R.C18.airLoop_perm", "P3R.C18.airLoop_length_perm", "P3R.C18.phase1_perm", "P3R.C18.phase2_lookup_perm",
+                 "P3R.C18.airLoop_perm", "P3R.C18.sortedEntries_perm", "P3R.C18.airLoop_sorted", "P3R.C18.airLoop_length_perm", "P3R.C18.phase1_perm", "P3R.C18.phase2_lookup_perm",
                  "P3R.C18.rewritePass_perm",
                  # combined
                  "P3R.C18.compile_order_independent", "P3R.C18.compileOrd_core",
